@@ -69,8 +69,13 @@ fn watch<T>(case: &str, f: impl FnOnce() -> T) -> T {
 }
 
 /// (case line as the model must see it, canonical result of the implementation)
+pub static IN_CASE: std::sync::atomic::AtomicBool = std::sync::atomic::AtomicBool::new(false);
+
 pub fn run_line(line: &str) -> (String, String) {
-    match watch(line, || catch_unwind(AssertUnwindSafe(|| run_op(line)))) {
+    IN_CASE.store(true, std::sync::atomic::Ordering::SeqCst);
+    let r = watch(line, || catch_unwind(AssertUnwindSafe(|| run_op(line))));
+    IN_CASE.store(false, std::sync::atomic::Ordering::SeqCst);
+    match r {
         Ok(Some(r)) => r,
         Ok(None) => (line.to_string(), "bad-case".into()),
         Err(_) => (line.to_string(), "panic".into()),
